@@ -25,9 +25,11 @@ impl InviteUsage {
         request: MayTake<'_, IncomingRequest>,
     ) -> Result<()> {
         let (mut prack, awaited_prack) = {
+            // parse the header first, a malformed PRACK must not consume the awaited one
+            let rack = request.headers.get_named::<RAck>()?;
+
             let mut awaited_prack_opt = self.inner.awaited_prack.lock();
             if let Some(awaited_prack) = awaited_prack_opt.take() {
-                let rack = request.headers.get_named::<RAck>()?;
 
                 if awaited_prack.rack == rack.rack && awaited_prack.cseq == rack.cseq {
                     (request.take(), awaited_prack)
